@@ -846,9 +846,16 @@ func shiftDates(v reflect.Value, ns int) int {
 			n += shiftDates(v.Index(i), ns)
 		}
 	case reflect.Map:
-		for _, k := range v.MapKeys() {
+		it := v.MapRange()
+		for it.Next() {
+			k := it.Key()
+			if k.Kind() == reflect.Float32 || k.Kind() == reflect.Float64 {
+				if f := k.Float(); f != f {
+					continue // an entry under a NaN key can be iterated but neither looked up nor replaced
+				}
+			}
 			e := reflect.New(v.Type().Elem()).Elem()
-			e.Set(v.MapIndex(k))
+			e.Set(it.Value())
 			if c := shiftDates(e, ns); c > 0 {
 				v.SetMapIndex(k, e)
 				n += c
